@@ -2445,7 +2445,10 @@ impl Scenario for PoolSim {
 
     fn num_cases(&self, tier: Tier) -> (u64, u64) {
         match tier {
-            Tier::Quick => (0, 300_000),
+            // (C05's rarest scenario - an idle HTTP/1 connection, an HTTP/2 request that leaves it
+            // alone and loses its own connection, a third request on the far side of the timeout -
+            // shows up about once in 300 000 runs: that profile gets five times as many)
+            Tier::Quick => (0, if self.property == "C05" { 1_500_000 } else { 300_000 }),
             Tier::Thorough => (0, 20_000_000),
         }
     }
